@@ -314,8 +314,11 @@ fn data_case(reg: Reg, front: Front, dslot: Option<usize>, off: Option<u8>, dcla
     };
     let lead = *rng.pick(&[0u32, 50, 300]);
     // (the state-machine front-end works on the board's 32-bit millisecond clock: also instants in
-    // its upper half and just before it wraps, i.e. after 24.8 and 49.7 days of uptime)
-    let txd = if front == Front::Nb && rng.chance(1, 4) { *rng.pick(&[0x7FFF_FD00u32, 0x7FFF_FFFF, 0x8000_1000, 0xC000_0000, 0xFFFF_F000, 0xFFFF_FFFF]) } else { *rng.pick(&[0u32, 57, 1800]) };
+    // its upper half and just before it wraps, i.e. after 24.8 and 49.7 days of uptime - among them
+    // ends of transmission from which the receive delay leads exactly to, or a few milliseconds past,
+    // the wrap, so that the board's lead time reaches back across it)
+    let near_wrap = 0u32.wrapping_sub(1000 * rng.range(1, 15) as u32) + rng.below(300) as u32;
+    let txd = if front == Front::Nb && rng.chance(1, 4) { *rng.pick(&[0x7FFF_FD00u32, 0x7FFF_FFFF, 0x8000_1000, 0xC000_0000, 0xFFFF_F000, 0xFFFF_FFFF, 0u32.wrapping_sub(1000), 0u32.wrapping_sub(1000) + 7, 0u32.wrapping_sub(5000), 0u32.wrapping_sub(5000) + 31, 0u32.wrapping_sub(2000) + 49, near_wrap]) } else { *rng.pick(&[0u32, 57, 1800]) };
     if txd > 0x7000_0000 {
         col.event("nb_clock_upper_half");
     }
@@ -537,8 +540,11 @@ fn join_case(reg: Reg, front: Front, rng: &mut Prng, col: &mut Collector) {
     let mut dev: Dev = Dev::new(front, reg, creds.clone(), &opts);
     let lead = *rng.pick(&[0u32, 50, 300]);
     // (the state-machine front-end works on the board's 32-bit millisecond clock: also instants in
-    // its upper half and just before it wraps, i.e. after 24.8 and 49.7 days of uptime)
-    let txd = if front == Front::Nb && rng.chance(1, 4) { *rng.pick(&[0x7FFF_FD00u32, 0x7FFF_FFFF, 0x8000_1000, 0xC000_0000, 0xFFFF_F000, 0xFFFF_FFFF]) } else { *rng.pick(&[0u32, 57, 1800]) };
+    // its upper half and just before it wraps, i.e. after 24.8 and 49.7 days of uptime - among them
+    // ends of transmission from which the receive delay leads exactly to, or a few milliseconds past,
+    // the wrap, so that the board's lead time reaches back across it)
+    let near_wrap = 0u32.wrapping_sub(1000 * rng.range(1, 15) as u32) + rng.below(300) as u32;
+    let txd = if front == Front::Nb && rng.chance(1, 4) { *rng.pick(&[0x7FFF_FD00u32, 0x7FFF_FFFF, 0x8000_1000, 0xC000_0000, 0xFFFF_F000, 0xFFFF_FFFF, 0u32.wrapping_sub(1000), 0u32.wrapping_sub(1000) + 7, 0u32.wrapping_sub(5000), 0u32.wrapping_sub(5000) + 31, 0u32.wrapping_sub(2000) + 49, near_wrap]) } else { *rng.pick(&[0u32, 57, 1800]) };
     if txd > 0x7000_0000 {
         col.event("nb_clock_upper_half");
     }
